@@ -48,8 +48,13 @@ RULES = {
     "(`<g>.inputs.clear()` + `extend(kept)`, slice assignment), the test that leaves an input out is a membership test in that graph's "
     "initializers (`in <g>.initializers` / a set built from them / `is_initializer()`) - a test of the value's own data (`const_value is "
     "not None`: analysis hints set it on plain inputs too) removes inputs that nothing else defines, and the nodes that read them dangle",
+    "R12": "a composite hands on what its last member returned: in the looping call() methods of the pass infrastructure (Sequential, "
+    "PassManager), the model handed to the next round and returned at the end is rebound from the member's result "
+    "(`model = result.model`) straight after the member ran - no break, continue or return can leave the round between the call and "
+    "the rebinding; with the early-stop test in between, a manager whose first step reports no change returns its input object, "
+    "which for a functional member is not the (unchanged) clone that the member produced - the identity contract of the manager fails",
 }
-FLOORS = {"R1": 18, "R2": 40, "R3": 10, "R4": 4, "R5": 1, "R6": 8, "R7": 5, "R8": 2, "R9": 6, "R10": 1, "R11": 1}
+FLOORS = {"R1": 18, "R2": 40, "R3": 10, "R4": 4, "R5": 1, "R6": 8, "R7": 5, "R8": 2, "R9": 6, "R10": 1, "R11": 1, "R12": 2}
 EXPLANATION = (
     "For every pass class found under onnx_ir.passes: CFG queries over `call` and every helper it reaches that "
     "writes model state (effect summaries with root tags), relating each write to the flag variables that reach "
@@ -904,6 +909,47 @@ def rule_r9(ctx):
     ctx.require(n >= 6, f"only {n} name assignments with made-up names found in the pass modules")
 
 
+def rule_r12(ctx):
+    m = ctx.repo.module("onnx_ir.passes._pass_infra")
+    n = 0
+    for k in m.classes.values():
+        f = k.methods.get("call")
+        if f is None or len(f.params) < 2:
+            continue
+        model = f.params[1]
+        for lp in (x for x in own_nodes(f.node) if isinstance(x, ast.For)):
+            # the statement of the loop body in which a member runs on the model, and the name its result is bound to
+            run_idx = res = None
+            for idx, st in enumerate(lp.body):
+                for a in ast.walk(st):
+                    if isinstance(a, ast.Assign) and isinstance(a.targets[0], ast.Name) and isinstance(a.value, ast.Call) \
+                            and any(isinstance(x, ast.Name) and x.id == model for x in a.value.args):
+                        run_idx, res = idx, a.targets[0].id
+                        break
+                if run_idx is not None:
+                    break
+            if run_idx is None:
+                continue
+            n += 1
+            reb = next((idx for idx, st in enumerate(lp.body) if isinstance(st, ast.Assign) and any(isinstance(t, ast.Name) and t.id == model for t in st.targets)
+                        and isinstance(st.value, ast.Attribute) and norm(st.value.value) == res), None)
+            bad = None
+            if reb is None or reb < run_idx:
+                bad = lp
+            else:
+                for st in lp.body[run_idx:reb]:
+                    for x in ast.walk(st):
+                        if isinstance(x, (ast.Break, ast.Continue, ast.Return)):
+                            bad = bad or x
+            ctx.check("R12", f"{f.local}: `{model} = {res}.…` follows the member call before the round can end", bad is None, f, bad if bad is not None else lp,
+                      f"between the call that binds `{res}` and `{model} = {res}.model` the round can be left ({type(bad).__name__.lower() if bad is not None else ''}), or the rebinding is missing: "
+                      "the composite then returns (or hands to the next round) the model it had before the member ran - for a functional member that is the input object, "
+                      "not the member's result",
+                      how="top-level statements of the loop body between the member call and the rebinding of the model parameter contain no break / continue / return",
+                      construct=f"model not rebound before the round can end in {f.local}")
+    ctx.require(n >= 2, f"only {n} looping call() methods found in the pass infrastructure")
+
+
 def rule_r11(ctx):
     n = 0
     for m in ctx.repo.modules.values():
@@ -921,7 +967,8 @@ def rule_r11(ctx):
                 if not any(isinstance(x.func, ast.Attribute) and x.func.attr == "clear" and norm(x.func.value) == f"{g}.inputs" for x in calls_in(f)):
                     continue
                 kept = c.args[0].id
-                # the loop over <g>.inputs that fills <kept>
+                # the loop over <g>.inputs that fills <kept> - or the comprehension that builds it
+                filters = []
                 for lp in (x for x in own_nodes(f.node) if isinstance(x, ast.For) and norm(x.iter) == f"{g}.inputs" and isinstance(x.target, ast.Name)):
                     appends = [a for a in ast.walk(lp) if isinstance(a, ast.Call) and isinstance(a.func, ast.Attribute) and a.func.attr == "append"
                                and norm(a.func.value) == kept and a.args and norm(a.args[0]) == lp.target.id]
@@ -932,6 +979,15 @@ def rule_r11(ctx):
                             if isinstance(p_, ast.If):
                                 tests.append(p_.test)
                             p_ = getattr(p_, "_parent", None)
+                        filters.append(tests)
+                for d in own_nodes(f.node):
+                    if isinstance(d, (ast.Assign, ast.AnnAssign)) and isinstance(d.value, ast.ListComp) and len(d.value.generators) == 1 \
+                            and any(isinstance(t, ast.Name) and t.id == kept for t in (d.targets if isinstance(d, ast.Assign) else [d.target])):
+                        gen = d.value.generators[0]
+                        if norm(gen.iter) == f"{g}.inputs" and isinstance(gen.target, ast.Name) and norm(d.value.elt) == gen.target.id:
+                            filters.append(list(gen.ifs))
+                if True:
+                    for tests in filters:
                         if not tests:
                             continue
                         n += 1
@@ -1065,6 +1121,7 @@ def run(ctx):
     passes = pass_classes(ctx)
     ctx.tables["pass_classes"] = [c.key for c in passes]
     rule_r11(ctx)
+    rule_r12(ctx)
     from ..shared import rule_s14
 
     rule_s14(ctx, "R10", lambda name: name.startswith("onnx_ir.passes"), "the pass acts on (and reports about) contents the model no longer has")
